@@ -399,7 +399,7 @@ func (lc *leaderController) BecomeLeader(ctx context.Context, req *proto.BecomeL
 	)
 
 	lc.status = proto.ServingStatus_LEADER
-	verifEmit(lc, "LBecome", "req", req.Term, "ok", true, "term", lc.term, "status", lc.status.String(), "head", lc.leaderElectionHeadEntryId.Offset, "commit", lc.quorumAckTracker.CommitOffset())
+	verifEmit(lc, "LBecome", "req", req.Term, "ok", true, "term", lc.term, "status", lc.status.String(), "head", lc.leaderElectionHeadEntryId.Offset, "commit", lc.quorumAckTracker.CommitOffset(), "rf", req.ReplicationFactor)
 	return &proto.BecomeLeaderResponse{}, nil
 }
 
